@@ -28,4 +28,108 @@ theorem testBit_orShifts (off : Nat) (S : List Nat) (i : Nat) :
     simp only [orShifts, Nat.testBit_or, ih, List.any_cons, Nat.one_shiftLeft, Nat.testBit_two_pow]
     congr 1
 
+theorem sub_orShifts (m : Nat) (P : List Nat) :
+    (m &&& orShifts 0 P == orShifts 0 P) = P.all (m.testBit ·) := by
+  rw [Bool.eq_iff_iff, beq_iff_eq, and_eq_self_iff]
+  simp only [testBit_orShifts, List.any_eq_true, List.all_eq_true, Nat.add_zero, beq_iff_eq]
+  constructor
+  · intro h p hp; exact h p ⟨p, hp, rfl⟩
+  · rintro h i ⟨p, hp, rfl⟩; exact h p hp
+
+theorem meet_orShifts (m : Nat) (P : List Nat) :
+    (m &&& orShifts 0 P != 0) = P.any (m.testBit ·) := by
+  rw [Bool.eq_iff_iff, bne_iff_ne]
+  simp only [List.any_eq_true]
+  constructor
+  · intro h
+    obtain ⟨i, hi⟩ := Nat.exists_testBit_of_ne_zero h
+    simp only [Nat.testBit_and, testBit_orShifts, Bool.and_eq_true, List.any_eq_true, Nat.add_zero, beq_iff_eq] at hi
+    obtain ⟨hm, p, hp, rfl⟩ := hi
+    exact ⟨p, hp, hm⟩
+  · rintro ⟨p, hp, hm⟩ h0
+    have : (m &&& orShifts 0 P).testBit p = true := by
+      simp only [Nat.testBit_and, testBit_orShifts, hm, Bool.true_and, List.any_eq_true, Nat.add_zero, beq_iff_eq]
+      exact ⟨p, hp, rfl⟩
+    rw [h0] at this
+    simp at this
+
+def pos1 (a : MAtom) : Nat := if a.z > 56 then 0 else 57 - a.z
+def pos2 (a : MAtom) : List Nat := (a.hybridization - 1) :: (if a.z > 56 then [120 - capS a.z] else [])
+def isoPos (mdl : Nat) (a : MAtom) : Nat := match isoTruthy a.isotope with | some i => i + 54 - mdl | none => 63
+def pos3 (mdl : Nat) (a : MAtom) : List Nat :=
+  [isoPos mdl a, if a.radical then 45 else 44, (a.charge + 39).toNat, hOr a.implH + 30, a.neighbors + 15, a.heteroatoms]
+
+theorem atomV1_eq (a : MAtom) : atomV1 a = orShifts 0 [pos1 a] := by
+  by_cases h : a.z > 56 <;> simp [atomV1, pos1, orShifts, h, sTransferZ, sTransferBit, sLoBase]
+
+theorem atomV2_eq (a : MAtom) : atomV2 a = orShifts 0 (pos2 a) := by
+  by_cases h : a.z > 56 <;> simp [atomV2, pos2, orShifts, h, sTransferZ, sHybSub, sHiBase]
+
+theorem c_noiso_norad : (9223389629040820224 : Nat) = 9223372036854775808 ||| 17592186044416 := by decide
+theorem c_noiso_rad : (9223407221226864640 : Nat) = 9223372036854775808 ||| 35184372088832 := by decide
+
+theorem atomV3_eq (mdl : Nat) (a : MAtom) : atomV3 mdl a = orShifts 0 (pos3 mdl a) := by
+  simp only [atomV3, pos3, isoPos, orShifts, sIsoOff, sChargeOff, sHOff, sNbOff, Nat.add_zero, Nat.or_zero]
+  cases isoTruthy a.isotope <;> cases a.radical <;>
+    simp only [sIsoRad, sIsoNoRad, sNoIsoRad, sNoIsoNoRad, Nat.or_assoc, if_true, if_false, Bool.false_eq_true]
+  · rw [c_noiso_norad, Nat.or_assoc]; rfl
+  · rw [c_noiso_rad, Nat.or_assoc]; rfl
+  · rfl
+  · rfl
+
+/-- all set bits of `x` lie in `[lo, hi)` -/
+def Within (x lo hi : Nat) : Prop := ∀ p, x.testBit p = true → lo ≤ p ∧ p < hi
+
+theorem Within.out {x lo hi p : Nat} (h : Within x lo hi) (hp : p < lo ∨ hi ≤ p) : x.testBit p = false := by
+  cases hb : x.testBit p
+  · rfl
+  · have := h p hb; omega
+
+theorem within_or {x y lo hi : Nat} (hx : Within x lo hi) (hy : Within y lo hi) : Within (x ||| y) lo hi := by
+  intro p hp
+  simp only [Nat.testBit_or, Bool.or_eq_true] at hp
+  cases hp with
+  | inl h => exact hx p h
+  | inr h => exact hy p h
+
+theorem within_mono {x lo hi lo' hi' : Nat} (h : Within x lo hi) (h1 : lo' ≤ lo) (h2 : hi ≤ hi') : Within x lo' hi' := by
+  intro p hp; have := h p hp; omega
+
+theorem within_zero (lo hi : Nat) : Within 0 lo hi := by intro p hp; simp at hp
+
+theorem within_shl1 (k : Nat) : Within (1 <<< k) k (k + 1) := by
+  intro p hp
+  simp only [Nat.one_shiftLeft, Nat.testBit_two_pow, decide_eq_true_eq] at hp
+  omega
+
+theorem testBit_shl1 (k p : Nat) : (1 <<< k).testBit p = decide (k = p) := by
+  simp [Nat.one_shiftLeft, Nat.testBit_two_pow]
+
+theorem within_orShifts (off w : Nat) (S : List Nat) (h : ∀ s ∈ S, s < w) : Within (orShifts off S) off (off + w) := by
+  intro p hp
+  simp only [testBit_orShifts, List.any_eq_true, beq_iff_eq] at hp
+  obtain ⟨s, hs, rfl⟩ := hp
+  have := h s hs; omega
+
+/-- `(2^w - 1) << off` is the run of `w` ones starting at `off` -/
+theorem testBit_run (w off p : Nat) : ((2 ^ w - 1) <<< off).testBit p = (decide (off ≤ p) && decide (p - off < w)) := by
+  simp [Nat.testBit_shiftLeft, Nat.testBit_two_pow_sub_one]
+
+theorem within_run (w off : Nat) : Within ((2 ^ w - 1) <<< off) off (off + w) := by
+  intro p hp
+  simp only [testBit_run, Bool.and_eq_true, decide_eq_true_eq] at hp
+  omega
+
+theorem qHAll_eq : qHAll = (2 ^ 5 - 1) <<< 30 := by decide
+theorem qHetAll_eq : qHetAll = (2 ^ 15 - 1) <<< 0 := by decide
+theorem qNbAll_eq : qNbAll = (2 ^ 15 - 1) <<< 15 := by decide
+theorem qHybAll_eq : qHybAll = (2 ^ 4 - 1) <<< 0 := by decide
+theorem qAnyIsoRad_eq : qAnyIsoRad = (2 ^ 19 - 1) <<< 45 := by decide
+theorem qAnyIsoNoRad_eq : qAnyIsoNoRad = ((2 ^ 18 - 1) <<< 46) ||| (1 <<< 44) := by decide
+theorem qAnyV1_eq : qAnyV1 = (2 ^ 57 - 1) <<< 0 := by decide
+theorem qAnyV2_eq : qAnyV2 = (2 ^ 60 - 1) <<< 4 := by decide
+theorem qAnyRing_eq : qAnyRing = (2 ^ 64 - 1) <<< 0 := by decide
+theorem qMetalV3_eq : qMetalV3 = ((2 ^ 15 - 1) <<< 0) ||| ((2 ^ 34 - 1) <<< 30) := by decide
+theorem qMetalV4_eq : qMetalV4 = (2 ^ 64 - 1) <<< 0 := by decide
+
 end ChythonModel.Proofs.C09
